@@ -231,9 +231,11 @@ func runCommitHistory(in *histInput, withExport, withRef bool) Res {
 					}
 					cfgFile = st.File
 				}
-				args := []string{"commit", "main", fmt.Sprintf("step %d", i), "-n", "1"}
+				// worker counts 2, 3, 4, 5, 1, ... by the step (step 0 runs with 1)
+				nw := fmt.Sprint(1 + i%5)
+				args := []string{"commit", "main", fmt.Sprintf("step %d", i), "-n", nw}
 				if st.All {
-					args = []string{"commit", "--all", fmt.Sprintf("step %d", i), "-n", "1"}
+					args = []string{"commit", "--all", fmt.Sprintf("step %d", i), "-n", nw}
 				}
 				if st.Via == "flag" && len(st.PK) > 0 && !st.All {
 					args = append(args, "-p", strings.Join(st.PK, ","))
